@@ -511,6 +511,19 @@ def run_settings(rep, rng, sb: Path):
         out, auth, ua = asyncio.run(construct(s))
         rep.case(("client", s["up"], bool(s["hp"]), bool(s["sp"]), bool(s["pu"]), s["h2d"]), sample={"settings": s})
         rep.count("client")
+        # statement-level: every transport of THIS downloader speaks HTTP/2 iff it is not disabled in ITS settings
+        # (clients are built one after the other in one process, as for several repositories of one run)
+        for sch, (_, h2) in zip(("http://", "https://"), out):
+            if h2 != (not s["h2d"]):
+                found = True
+                rep.violation(f"downloader built with http2_disable={s['h2d']} has a {sch} transport with http2={h2} "
+                              f"(earlier downloaders in this process used other settings)",
+                              {"kind": "oracle", "tie": "client", "case": {"settings": s, "position": combos.index(s)}},
+                              tags={"oracle": "http2_flag"})
+        if ua != s["ua"]:
+            found = True
+            rep.violation(f"configured User-Agent {s['ua']!r} but the client sends {ua!r}",
+                          {"kind": "oracle", "tie": "client", "case": {"settings": s}}, tags={"oracle": "user_agent"})
         # expected proxy url with credentials is compared structurally: host part + Proxy-Authorization
         exp_out = []
         for (pstr, h2) in out:
